@@ -82,6 +82,16 @@ type ContractSet struct {
 	LemmaSeq  []string
 	Scan      map[string]int // assumption scan: counts of trusted/assume/axiom lines
 	Files     []string
+	Finals    []FinalDecl // `final T.f ... [in Ctor,...]`: fields assigned only at construction
+}
+
+// FinalDecl: fields of struct type Type that the package assigns only in composite literals or inside the functions In.
+type FinalDecl struct {
+	Type   string
+	Fields []string
+	In     []string
+	Line   int
+	File   string
 }
 
 func newContractSet() *ContractSet {
@@ -209,6 +219,39 @@ func (cs *ContractSet) loadFile(path string) error {
 				sf.Recursive = callsName(e, sf.Name)
 			}
 			cs.SpecFuncs[sf.Name] = sf
+			cur, curLemma = nil, nil
+			continue
+		case "final":
+			// final T.f1 T.f2 ... [in F1,F2]
+			parts := strings.Fields(rest)
+			fd := map[string]*FinalDecl{}
+			var in []string
+			for i := 0; i < len(parts); i++ {
+				if parts[i] == "in" {
+					for _, x := range parts[i+1:] {
+						for _, y := range strings.Split(x, ",") {
+							if y = strings.TrimSpace(y); y != "" {
+								in = append(in, y)
+							}
+						}
+					}
+					break
+				}
+				tf := strings.SplitN(strings.TrimSuffix(parts[i], ","), ".", 2)
+				if len(tf) != 2 {
+					return fmt.Errorf("%s:%d: bad final directive %q", path, l.no, parts[i])
+				}
+				d := fd[tf[0]]
+				if d == nil {
+					d = &FinalDecl{Type: tf[0], Line: l.no, File: path}
+					fd[tf[0]] = d
+				}
+				d.Fields = append(d.Fields, tf[1])
+			}
+			for _, d := range fd {
+				d.In = in
+				cs.Finals = append(cs.Finals, *d)
+			}
 			cur, curLemma = nil, nil
 			continue
 		case "lemma":
